@@ -162,28 +162,36 @@ macro_rules! text_types_for {
         fn tok_unit<P: paseto_core::version::Purpose>(s: &str) -> TextOutcome {
             probe_generic::<SealedToken<$V, P, Raw, ()>>(s, |_| Some(vec![]))
         }
-        let ver = <$V as Version>::PASERK_HEADER;
-        let tv = <$V as Version>::HEADER;
+        // the header strings are the SPECIFICATION's (PASERK types.md, PASETO protocol versions), written out here: what
+        // the library's constants say is part of what is being tested
+        let (ver, tv): (&'static str, &'static str) = match $name {
+            "paseto-v1" => ("k1", "v1"),
+            "paseto-v2" => ("k2", "v2"),
+            "paseto-v3" | "paseto-v3-aws-lc" => ("k3", "v3"),
+            _ => ("k4", "v4"),
+        };
         let mut add = |kind: &'static str, family: Family, ver: &'static str, hdr: &'static str, probe: fn(&str) -> TextOutcome| {
             $out.push(TextType { backend: $name, kind, family, ver, hdr, probe });
         };
-        add("key.local", Family::Paserk, ver, <Local as KeyType>::HEADER, kt::<Local>);
-        add("key.public", Family::Paserk, ver, <Public as KeyType>::HEADER, kt::<Public>);
-        add("key.secret", Family::Paserk, ver, <Secret as KeyType>::HEADER, kt::<Secret>);
-        add("key.pke-public", Family::Paserk, ver, <PkePublic as KeyType>::HEADER, kt::<PkePublic>);
-        add("key.pke-secret", Family::Paserk, ver, <PkeSecret as KeyType>::HEADER, kt::<PkeSecret>);
-        add("id.local", Family::KeyId, ver, <Local as KeyType>::ID_HEADER, kid::<Local>);
-        add("id.public", Family::KeyId, ver, <Public as KeyType>::ID_HEADER, kid::<Public>);
-        add("id.secret", Family::KeyId, ver, <Secret as KeyType>::ID_HEADER, kid::<Secret>);
-        add("pie.local", Family::Paserk, ver, <Local as SealingKey>::PIE_WRAP_HEADER, pie::<Local>);
-        add("pie.secret", Family::Paserk, ver, <Secret as SealingKey>::PIE_WRAP_HEADER, pie::<Secret>);
-        add("pw.local", Family::Paserk, ver, <Local as SealingKey>::PW_WRAP_HEADER, pw::<Local>);
-        add("pw.secret", Family::Paserk, ver, <Secret as SealingKey>::PW_WRAP_HEADER, pw::<Secret>);
+        add("key.local", Family::Paserk, ver, ".local.", kt::<Local>);
+        add("key.public", Family::Paserk, ver, ".public.", kt::<Public>);
+        add("key.secret", Family::Paserk, ver, ".secret.", kt::<Secret>);
+        add("key.pke-public", Family::Paserk, ver, ".public.", kt::<PkePublic>);
+        add("key.pke-secret", Family::Paserk, ver, ".secret.", kt::<PkeSecret>);
+        add("id.local", Family::KeyId, ver, ".lid.", kid::<Local>);
+        add("id.public", Family::KeyId, ver, ".pid.", kid::<Public>);
+        add("id.secret", Family::KeyId, ver, ".sid.", kid::<Secret>);
+        add("id.pke-public", Family::KeyId, ver, ".pid.", kid::<PkePublic>);
+        add("id.pke-secret", Family::KeyId, ver, ".sid.", kid::<PkeSecret>);
+        add("pie.local", Family::Paserk, ver, ".local-wrap.pie.", pie::<Local>);
+        add("pie.secret", Family::Paserk, ver, ".secret-wrap.pie.", pie::<Secret>);
+        add("pw.local", Family::Paserk, ver, ".local-pw.", pw::<Local>);
+        add("pw.secret", Family::Paserk, ver, ".secret-pw.", pw::<Secret>);
         add("seal", Family::Paserk, ver, ".seal.", seal);
-        add("token.local", Family::TokenVec, tv, <Local as KeyType>::HEADER, tok_vec::<Local>);
-        add("token.public", Family::TokenVec, tv, <Public as KeyType>::HEADER, tok_vec::<Public>);
-        add("token.local.nofooter", Family::TokenUnit, tv, <Local as KeyType>::HEADER, tok_unit::<Local>);
-        add("token.public.nofooter", Family::TokenUnit, tv, <Public as KeyType>::HEADER, tok_unit::<Public>);
+        add("token.local", Family::TokenVec, tv, ".local.", tok_vec::<Local>);
+        add("token.public", Family::TokenVec, tv, ".public.", tok_vec::<Public>);
+        add("token.local.nofooter", Family::TokenUnit, tv, ".local.", tok_unit::<Local>);
+        add("token.public.nofooter", Family::TokenUnit, tv, ".public.", tok_unit::<Public>);
     }};
 }
 
